@@ -50,6 +50,7 @@ pub fn blocks(thorough: bool) -> Vec<Block> {
         b.push(Block::new(u_count_gaps(), thr(&[0], &[(1, 1), (2, 1), (3, 1)]), "r x {(1,1),(2,1),(3,1)}"));
         b.push(Block::new(u_long_runs(40), thr(&[0, D, X], &[(1, 1), (1, 2), (3, 1)]), "r x {{}, d, x} x {(1,1),(1,2),(3,1)}"));
         b.push(Block::new(u_many(30), thr(&[0, D], &[(1, 1)]), "r x {{}, d}"));
+        b.push(Block::new(u_nested_rep(), thr(&[0, X], &[(1, 1)]), "r x {{}, x}"));
         b.push(Block::new(u_kind_triples(), thr(&[0, X], &[(1, 1)]), "r x {{}, x}"));
         b.push(Block::new(u_corpus("U_longstr", verif_seed() + 7, 4_000, &["a", "b", "c"], (1, 1), (40, 90)), thr(&[0], &[(1, 1)]), "r (corpus of long single strings: dozens of repetition ranges each)"));
     } else {
@@ -77,6 +78,7 @@ pub fn blocks(thorough: bool) -> Vec<Block> {
         b.push(Block::new(u_long_runs(300), thr(&[0, X], &grid22), "r x {{}, x} x 6 thresholds"));
         b.push(Block::new(u_long_runs(60), thr(&[D, W, I], &grid22), "r x {d, w, i} x 6 thresholds"));
         b.push(Block::new(u_many(120), thr(&[0, D, X], &[(1, 1), (2, 1)]), "r x {{}, d, x} x {(1,1),(2,1)}"));
+        b.push(Block::new(u_nested_rep(), thr(&[0, X, E, I, D, G], &grid22), "r x {{}, x, e, i, d, g} x 6 thresholds"));
         b.push(Block::new(u_kind_triples(), thr(&[0, X, E, I], &[(1, 1), (1, 2)]), "r x {{}, x, e, i} x {(1,1),(1,2)}"));
         b.push(Block::new(u_corpus("U_longstr", verif_seed() + 7, 60_000, &["a", "b", "c"], (1, 1), (40, 90)), thr(&[0], &[(1, 1), (1, 2)]), "r x {(1,1),(1,2)} (corpus of long single strings)"));
         b.push(Block::new(u_corpus("U_longstr2", verif_seed() + 8, 20_000, &["a", "b"], (1, 2), (50, 120)), thr(&[0], &[(1, 1)]), "r (corpus)"));
